@@ -562,7 +562,17 @@ func (a *Allocator) IPs(svc string) []net.IP {
 
 func (a *Allocator) AllocationKey(svc string) string {
 	if alloc := a.allocated[svc]; alloc != nil {
-		return alloc.key.backend + alloc.key.sharing
+		if alloc.key.sharing == "" {
+			return alloc.key.backend
+		}
+		// The ports of a service that allows sharing decide who else fits on
+		// its address, so they are part of what other services depend on.
+		ports := make([]string, 0, len(alloc.ports))
+		for _, p := range alloc.ports {
+			ports = append(ports, p.String())
+		}
+		sort.Strings(ports)
+		return alloc.key.backend + alloc.key.sharing + "|" + strings.Join(ports, ",")
 	}
 	return ""
 }
